@@ -81,10 +81,11 @@ pub fn run_exchanges(cfgs: Vec<Arc<ExchCfg>>, lim: &Limits, require_single_outco
             rep.add_extra_count("final_states", ex.finals);
             rep.add_extra_count("hidden_state_probes", ex.probes);
             if ex.found.is_empty() {
-                if ex.finals == 0 {
+                // (a graph that was cut short says nothing about what is reachable)
+                if ex.finals == 0 && !ex.cap_hit {
                     rep.violation(Violation { key: format!("{}:no-final-state", cfg.prop), ord: i as u64 * 10_000, what: format!("exchange #{} has no reachable final state", i), replay: json!({"exchange": describe(cfg), "cfg_index": i, "trace": []}) });
                 }
-                if require_single_outcome && ex.outcomes.len() > 1 {
+                if require_single_outcome && ex.outcomes.len() > 1 && !ex.cap_hit {
                     let mut it = ex.final_traces.iter();
                     let a = it.next().unwrap();
                     let b = it.find(|t| t.2 != a.2).unwrap_or(a);
